@@ -78,6 +78,29 @@ def run(rep: Report, tier: str) -> None:
 	rule_d(rep)
 	rule_e(rep)
 	rule_f(rep)
+	rule_g(rep)
+
+
+def rule_g(rep: Report) -> None:
+	"""one SyntaxParser / Tokenizer instance parses many texts (gram_check's interactive loop, the test helpers): whatever it remembers between parse()
+	calls can answer for another text. The container attributes of the engine classes are inventoried by C04/instance-state-inventory; here only those
+	of the parser, tokenizer and lexer count."""
+	from checks import c04
+	idx = SourceIndex()
+	r = rep.rule('C11/parser-keeps-no-parse-state', 'SyntaxParser, Tokenizer and Lexer hold no container or memo besides their constant dispatch tables (a memo keyed by cursor positions survives a rejected text and answers for the next one)', floor=3)
+	scratch = Report('C04', rep.tier)
+	c04.rule_g(scratch, idx)
+	n_ = 0
+	for rule in scratch.rules:
+		for o in rule.obligations:
+			if not o.key.startswith(('SyntaxParser.', 'Tokenizer.', 'Lexer.', 'ProgreessMonitor.', 'ErrorCollector.')):
+				continue
+			n_ += 1
+			if o.status == 'violated':
+				r.violate(o.key, (o.file, o.line), o.message, o.fragment)
+			else:
+				r.ok(o.key, (o.file, o.line))
+	rep.consulted(SYNTAX_PY)
 
 
 def rule_f(rep: Report) -> None:
@@ -310,6 +333,15 @@ def rule_b(rep: Report) -> None:
 	for ret in rets:
 		known = atoms(fx, ret)
 		r.check(any(p_ and consumed_all(a) for a, p_ in known), 'guard-dominates-return', f.where, f'parse must return only when the number of consumed tokens equals the number of tokens of the whole source (else raise Errors.Syntax): trailing tokens would be dropped silently (conditions at the return: {[(unparse(a), p_) for a, p_ in known]})', unparse(ret))
+	# text the lexer cannot classify is text outside the grammar as well: the tokenizer call sits inside a try that converts any failure into Errors.Syntax
+	from vlib.flow import enclosing_tries, handler_raises, handler_types, parent_map, raised_name
+	pm_ = parent_map(f.node)
+	tok_calls = [c_ for c_ in walk_no_nested(f.node) if isinstance(c_, ast.Call) and unparse(c_.func).endswith('tokenizer.parse')]
+	if not tok_calls:
+		r.skip('tokenizer-boundary', f.where, 'parse no longer calls self.tokenizer.parse')
+	for c_ in tok_calls:
+		conv = any(set(handler_types(h)) & {'Exception', 'BaseException'} and any(raised_name(x) == 'Errors.Syntax' for x in handler_raises(h)) for t in enclosing_tries(c_, pm_) for h in t.handlers)
+		r.check(conv, 'tokenizer-boundary', (SYNTAX_PY, c_.lineno), '`self.tokenizer.parse(source)` runs outside `except Exception -> raise Errors.Syntax`: a character the lexer cannot classify (backslash, non-ASCII identifier) escapes as AssertionError and a source ending in `-` as IndexError instead of Errors.Syntax', unparse(c_))
 	r.check(any(isinstance(n, ast.Raise) and 'Errors.Syntax' in unparse(n) for n in ast.walk(fx)), 'raises-syntax-error', f.where, 'parse no longer raises Errors.Syntax for an incomplete match')
 
 
